@@ -50,7 +50,7 @@ typedef struct Node {
 } Node;
 
 typedef struct { int call; unsigned long ino; int err; long arg; int count; } Fail;
-enum { A_UNLINK = 1, A_RMTREE, A_REPLACE, A_TRUNCATE, A_MKFILE };
+enum { A_UNLINK = 1, A_RMTREE, A_REPLACE, A_TRUNCATE, A_MKFILE, A_PROMOTE };
 typedef struct { int call; unsigned long ino; long nth; int count; int action; char *path; long arg; int done; } Mut;
 typedef struct { unsigned long id; char *name; } Ident;
 
@@ -275,7 +275,7 @@ static void parse_plan(char *text) {
                         char *a = next_tok(&p);
                         if (!strcmp(a, "unlink")) m->action = A_UNLINK; else if (!strcmp(a, "rmtree")) m->action = A_RMTREE;
                         else if (!strcmp(a, "replace")) m->action = A_REPLACE; else if (!strcmp(a, "truncate")) m->action = A_TRUNCATE;
-                        else if (!strcmp(a, "mkfile")) m->action = A_MKFILE; else die("plan: mutate action");
+                        else if (!strcmp(a, "mkfile")) m->action = A_MKFILE; else if (!strcmp(a, "promote")) m->action = A_PROMOTE; else die("plan: mutate action");
                         m->path = dec(next_tok(&p)); char *t = next_tok(&p); m->arg = t ? atol(t) : 0;
                     } else if (!strcmp(kw, "chunks")) {
                         Node *n = node_by_ino(strtoul(next_tok(&p), NULL, 10)); if (!n) die("plan: chunks node");
@@ -394,8 +394,10 @@ static void run_mutations(int call, Node *n) {
         case A_REPLACE: { rmtree(m->path); int fd = real_open(m->path, O_WRONLY | O_CREAT | O_TRUNC, 0644); if (fd >= 0) { real_write(fd, "x", 1); real_close(fd); } break; }
         case A_TRUNCATE: truncate(m->path, m->arg); break;
         case A_MKFILE: { int fd = real_open(m->path, O_WRONLY | O_CREAT | O_TRUNC, 0644); if (fd >= 0) { real_write(fd, "new\n", 4); real_close(fd); } break; }
+        case A_PROMOTE: { /* "<path>.next" (prepared in the world) atomically takes the place of <path>: a link re-pointed by somebody else */
+            char nx[PATH_MAX]; snprintf(nx, sizeof nx, "%s.next", m->path); rename(nx, m->path); break; }
         }
-        logline("mutate %s after %s %s inj:mutate", m->action == A_UNLINK ? "unlink" : m->action == A_RMTREE ? "rmtree" : m->action == A_REPLACE ? "replace" : m->action == A_TRUNCATE ? "truncate" : "mkfile",
+        logline("mutate %s after %s %s inj:mutate", m->action == A_UNLINK ? "unlink" : m->action == A_RMTREE ? "rmtree" : m->action == A_REPLACE ? "replace" : m->action == A_TRUNCATE ? "truncate" : m->action == A_PROMOTE ? "promote" : "mkfile",
                 call_names[call], enc(m->path, e1, sizeof e1));
         errno = saved;
     }
